@@ -247,6 +247,17 @@ func (d *Decoder) unmarshal(val reflect.Value, tagType byte) error {
 			default:
 				return errors.New("cannot parse TagByteArray to slice of" + ve.String())
 			}
+		} else if vt.Kind() == reflect.Array && (vt.Elem().Kind() == reflect.Uint8 || vt.Elem().Kind() == reflect.Int8) {
+			if vt.Len() != int(aryLen) {
+				return errors.New("cannot parse TagByteArray to " + vt.String() + ", length not match")
+			}
+			for i := 0; i < int(aryLen); i++ {
+				if vt.Elem().Kind() == reflect.Uint8 {
+					val.Index(i).SetUint(uint64(ba[i]))
+				} else {
+					val.Index(i).SetInt(int64(int8(ba[i])))
+				}
+			}
 		} else if vt.Kind() == reflect.Interface {
 			val.Set(reflect.ValueOf(ba))
 		} else {
